@@ -42,6 +42,17 @@ class V:
         return (s, obs)
 
 
+class FalsyV(V):
+    """A registered value / subscriber that is falsy (an empty container used
+    as a utility, say): only ``None`` means 'nothing registered'."""
+
+    def __bool__(s):
+        return False
+
+    def __len__(s):
+        return 0
+
+
 def mk(n, *b):
     return InterfaceClass(n, b or (Interface,), {'__module__': wmod()})
 
@@ -64,7 +75,7 @@ def build(flavour):
     W[None] = None
     W['a'] = V('a', 1)
     W['a2'] = V('a', 2)
-    W['b'] = V('b', 3)
+    W['b'] = FalsyV('b', 3)
     W['base'] = cls()
     W['reg'] = cls((W['base'],))
     return W
